@@ -7,12 +7,23 @@ PROGS = ['C5Hc0K/()', 'Hc0K/()', 'C0C1/(C2)/()()', 'c0C2/(C4)/(C5)', 'HC0C1K/C2(
 TRUSTED = ['Coq 8.16.1 kernel; no axioms', 'extraction: ExtrOcamlBasic only; ocaml/callrcu_driver.ml', 'projection: tools/callrcu_common.py project() (trusted)',
            'harness: sched.c (library-created helper threads are scheduled threads; futex emulation)',
            'modelled: wfcqueue as an atomic FIFO linearised at the tail exchange (C10); the helper\'s synchronize_rcu() as start/end of an abstract grace period (C01); '
-           'per-CPU helpers and thread affinity are not exercised; qlen is debugging only']
+           'per-CPU helpers: one helper installed for the (single, simulated) CPU, torn down by free_all_cpu_call_rcu_data; released call_rcu_data structures are quarantined; qlen is debugging only']
+# per-CPU helpers: thread 0 installs a helper for its CPU and uses it; another thread tears the per-CPU helpers down while thread 0 is frozen at every point of
+# its operations (in particular inside call_rcu(), after it has selected the helper and before it has enqueued)
+CPUPROGS = ['AC0C1/Z', 'AC0/ZC1/()', 'Ac0C2/Z()']
+def cpu_cases(ctx):
+    out = []
+    for prog in CPUPROGS[:2 if ctx.quick() else 3]:
+        th = [str(i) for i in range(prog.count('/') + 1)]; allth = th + [str(len(th) + i) for i in range(2)]
+        for point in range(1, 140 if ctx.quick() else 260, 2 if ctx.quick() else 1):
+            # thread 0 frozen after `point` steps; the tearing-down thread and the helper threads run (the teardown needs the helper to stop) until they block; then all
+            out.append((prog, '0a' * point + ''.join(o + chr(ord('a') + int(o)) for o in allth[1:]) * 120))
+    return out
 def run(ctx):
     ctx.cov['source_hash'] = source_hash(FILES)
     prove(ctx)
     driver = build_model_driver(ctx, 'callrcu', 'ExtractCallRcu.v', 'callrcu_driver.ml')
-    CR.run_scen(ctx, PROGS, 300 if ctx.quick() else 4000, 'C03', driver)
+    CR.run_scen(ctx, PROGS + CPUPROGS, 300 if ctx.quick() else 4000, 'C03', driver, extra_cases=cpu_cases(ctx))
     return finish(ctx, trusted=TRUSTED, rule='Step/Flush/Spurious schedules over application threads and library-created helper threads: parking sweeps (step and operation level) + bursty random; '
                   'programs with concurrent callers, readers, chained callbacks, per-thread helpers created and destroyed with callbacks pending; non-trivial = a helper slept')
 def replay(ctx, rp):
